@@ -11,6 +11,7 @@ verus! {
 //@include prelude/received_pdu.rs
 //@include prelude/command.rs
 //@include prelude/created_frame_abs.rs
+//@include prelude/network.rs
 
 /// stand-in for crate::SubDevice: only the configured address is read here
 pub struct SubDevice { pub configured_address: u16 }
@@ -29,8 +30,23 @@ impl<'a> SdIter<'a> {
     { unimplemented!() }
 }
 
-pub struct AlControl { pub _p: u8 }
-impl AlControl { pub const PACKED_LEN: usize = 2; }
+/*@type file=src/al_control.rs name=AlControl derive="Clone, Copy, PartialEq, Eq, Debug" @*/
+impl AlControl {
+    pub const PACKED_LEN: usize = 2;
+    pub uninterp spec fn unpack_spec(b: Seq<u8>) -> Result<AlControl, WireError>;
+    /// derive output (C19: wire_al_control)
+    #[verifier::external_body]
+    pub fn unpack_from_slice(buf: &[u8]) -> (r: Result<AlControl, WireError>)
+        ensures r == AlControl::unpack_spec(buf@)
+    { unimplemented!() }
+}
+pub assume_specification[ <SubDeviceState as PartialEq>::eq ](a: &SubDeviceState, b: &SubDeviceState) -> (r: bool)
+    ensures r == (*a == *b);
+
+/// "the AL status read of the device at `address` was answered with bytes that decode to state `st`"
+pub open spec fn reported(address: u16, st: SubDeviceState, got: RxPdu) -> bool {
+    AlControl::unpack_spec(got.data) is Ok && (AlControl::unpack_spec(got.data)->Ok_0).state == st
+}
 
 pub open spec fn state_check(sd: SubDevice) -> PduSpec {
     PduSpec { cmd: Command::Read(Reads::Fprd { address: sd.configured_address, register: 0x0130 }), len: 2, data: Seq::<u8>::empty() }
@@ -41,6 +57,29 @@ pub open spec fn state_checks(devs: Seq<SubDevice>, k: nat) -> Seq<PduSpec>
     decreases k
 {
     if k == 0 { Seq::<PduSpec>::empty() } else { state_checks(devs, (k - 1) as nat).push(state_check(devs[k - 1])) }
+}
+
+/// SubDevice `sd` answered its AL-status read with the state `st`
+pub open spec fn ok_dev(sd: SubDevice, st: SubDeviceState) -> bool {
+    exists|g: RxPdu| answered(state_check(sd).cmd, g) && reported(sd.configured_address, st, g)
+}
+
+pub proof fn lemma_ok_dev(sd: SubDevice, st: SubDeviceState, g: RxPdu)
+    requires answered(state_check(sd).cmd, g), reported(sd.configured_address, st, g)
+    ensures ok_dev(sd, st)
+{
+}
+
+pub proof fn lemma_state_checks(devs: Seq<SubDevice>, k: nat)
+    requires k <= devs.len()
+    ensures
+        state_checks(devs, k).len() == k,
+        forall|j: int| 0 <= j < k ==> state_checks(devs, k)[j] == state_check(devs[j]),
+    decreases k
+{
+    if k > 0 {
+        lemma_state_checks(devs, (k - 1) as nat);
+    }
 }
 
 /*@fn file=src/subdevice_group/mod.rs name=push_state_checks subst="<'group, 'sto, I>=><'group>@@where I: Iterator<Item = &'group SubDevice>,=>@@CreatedFrame<'sto>=>CreatedFrame@@I=>SdIter<'group>" props=C07
@@ -93,10 +132,68 @@ impl<const MAX_PDI: usize> PdiGuard<MAX_PDI> {
 }
 
 /// the fields of SubDeviceGroup that the cycle reads
-pub struct Grp<const MAX_PDI: usize> { pub read_pdi_len: usize, pub pdi_len: usize, pub start_address: u32 }
+pub struct Grp<const MAX_PDI: usize> { pub read_pdi_len: usize, pub pdi_len: usize, pub start_address: u32, pub subdevices: Vec<SubDevice> }
 
 impl<const MAX_PDI: usize> Grp<MAX_PDI> {
     pub open spec fn wf(&self) -> bool { self.read_pdi_len <= self.pdi_len <= MAX_PDI }
+
+    /// `self.inner().subdevices.iter()`
+    #[verifier::external_body]
+    pub fn sd_iter(&self) -> (r: SdIter<'_>)
+        ensures r.rest@ == self.subdevices@
+    { unimplemented!() }
+
+    /// `SubDeviceGroup::len`
+    #[verifier::external_body]
+    pub fn len(&self) -> (r: usize)
+        ensures r == self.subdevices@.len()
+    { unimplemented!() }
+
+/*@fn file=src/subdevice_group/mod.rs impl="impl<const MAX_SUBDEVICES: usize, const MAX_PDI: usize, R: RawRwLock, S, DC> SubDeviceGroup<MAX_SUBDEVICES, MAX_PDI, R, S, DC>" name=is_state subst="MainDevice<'_>=>MainDevice@@self.inner().subdevices.iter()=>self.sd_iter()@@frame.await?=>frame.wait().await?" props=C10 attr="#[verifier::loop_isolation(false)] #[verifier::allow_complex_invariants]"
+    requires
+        maindevice.pdu_loop.area <= 0x7ff,
+        maindevice.pdu_loop.area >= 14,                 // a frame can carry at least one state check (C07/C10 quantifier)
+        self.subdevices@.len() <= 0xffff,
+    ensures
+        // Ok(true) only if EVERY SubDevice of the group answered an AL-status read (FPRD 0x0130 to its own configured
+        // address) and the answer decodes to the requested state
+        r == Ok::<bool, Error>(true) ==> forall|i: int| 0 <= i < self.subdevices@.len() ==> ok_dev(#[trigger] self.subdevices@[i], desired_state),
+@loop 0
+    invariant
+        total_checks <= self.subdevices@.len(),
+        subdevices.rest@ == self.subdevices@.skip(total_checks as int),
+        forall|i: int| 0 <= i < total_checks ==> ok_dev(#[trigger] self.subdevices@[i], desired_state),
+    ensures
+        total_checks == self.subdevices@.len(),
+    decreases (self.subdevices@.len() - total_checks)
+@before "let (rest, num_in_this_frame) = push_state_checks"
+    let ghost devs_left = subdevices.rest@;
+    let ghost base: int = total_checks as int;
+@after "let received = frame.await?;"
+    let ghost got = received.pdus@;
+    proof {
+        lemma_state_checks(devs_left, num_in_this_frame as nat);
+        assert(got.len() == num_in_this_frame);
+        assert forall|j: int| 0 <= j < got.len() implies answered(state_check(self.subdevices@[base + j]).cmd, #[trigger] got[j]) by {
+            assert(devs_left[j] == self.subdevices@[base + j]);
+        }
+    }
+@loop 1
+    invariant
+        __it0.rest@.len() <= got.len(),
+        forall|i: int| base <= i < base + got.len() - __it0.rest@.len() ==> ok_dev(#[trigger] self.subdevices@[i], desired_state),
+        __it0.rest@ =~= got.skip(got.len() - __it0.rest@.len()),
+    ensures
+        __it0.rest@.len() == 0,
+    decreases __it0.rest@.len()
+@before "let pdu = pdu?;"
+    let ghost jj: int = got.len() - __it0.rest@.len() - 1;
+@after "return Ok(false); }"
+    proof {
+        assert(got[jj] == got.skip(jj)[0]);
+        lemma_ok_dev(self.subdevices@[base + jj], desired_state, got[jj]);
+    }
+@*/
 
 /*@fn file=src/subdevice_group/mod.rs impl="impl<const MAX_SUBDEVICES: usize, const MAX_PDI: usize, R: RawRwLock, S, DC> SubDeviceGroup<MAX_SUBDEVICES, MAX_PDI, R, S, DC>" name=process_received_pdi_chunk subst="ReceivedPdu<'_>=>ReceivedPdu@@RwLockWriteGuard<'_, R, MySyncUnsafeCell<[u8; MAX_PDI]>>=>PdiGuard<MAX_PDI>" props=C07
     requires
